@@ -12,7 +12,7 @@ import (
 )
 
 func init() {
-	register("C03", "Lexical tables (extracted from the code, compared with the October 2021 lexical grammar): (R1) the punctuator dispatch of ReadToken maps exactly the 14 punctuators to their token kinds (`...` through a three-byte comparison); (R2) the characters that start a name are [_A-Za-z], the characters that continue one are [_0-9A-Za-z], numbers start with [-0-9]; (R3) ws skips exactly tab, space, comma, LF, CR and the BOM (EF BB BF); (R4) the single-character escapes of quoted strings are quote, backslash, slash, b, f, n, r, t with the right code points; (R5) a unicode escape takes exactly four characters and unhex accepts exactly [0-9A-Fa-f] with the right weights, without delegating to a parser that accepts more; (R6) comments, strings and block strings accept exactly SourceCharacter (minus their terminators); (R7) block strings honour exactly the backslash-triple-quote escape, and block-string whitespace is exactly space and tab (no Unicode whitespace functions anywhere in the lexer); (R8) a number is followed by neither a name start nor a dot (look-ahead before the Int/Float token is made). Sets are computed by propagating interval sets of the scrutinised character through the branch conditions — no expression is executed. (R5 also) a character is written as one byte only where its interval set lies below 0x80.", runC03)
+	register("C03", "Lexical tables (extracted from the code, compared with the October 2021 lexical grammar): (R1) the punctuator dispatch of ReadToken maps exactly the 14 punctuators to their token kinds (`...` through a three-byte comparison); (R2) the characters that start a name are [_A-Za-z], the characters that continue one are [_0-9A-Za-z], numbers start with [-0-9]; (R3) ws skips exactly tab, space, comma, LF, CR and the BOM (EF BB BF); (R4) the single-character escapes of quoted strings are quote, backslash, slash, b, f, n, r, t with the right code points; (R5) a unicode escape takes exactly four characters and unhex accepts exactly [0-9A-Fa-f] with the right weights, without delegating to a parser that accepts more; (R6) comments, strings and block strings accept exactly SourceCharacter (minus their terminators); (R7) block strings honour exactly the backslash-triple-quote escape, and block-string whitespace is exactly space and tab (no Unicode whitespace functions anywhere in the lexer); (R8) a number is followed by neither a name start nor a dot (look-ahead before the Int/Float token is made). Sets are computed by propagating interval sets of the scrutinised character through the branch conditions — no expression is executed. (R5 also) a character is written as one byte only where its interval set lies below 0x80. (R9) the rune cursor is never advanced by a byte length; a stepping helper's parameter is classified by what its callers pass.", runC03)
 }
 
 // ---- interval sets ----
@@ -933,6 +933,10 @@ func runC03(c *Ctx) {
 			}
 		}
 	}
+
+	// ---- R9 token extents are counted in characters (shared with C04.R3 / C04.R6)
+	r9 := c.Rule("R9", "the rune cursor is never advanced by a byte length", 10)
+	c04CursorUnits(c, r9)
 }
 
 // advanceSet: the values of the scrutinised character for which fn advances the cursor (stores to Lexer.end).
